@@ -22,11 +22,23 @@ func newNode(idx int, id *tss.PartyID, role string) *Node {
 	return &Node{Idx: idx, ID: id, Role: role, out: make(chan tss.Message, outCap)}
 }
 
+// IDStyle chooses the free-form id / moniker strings of the party ids built by MakeIDs: "" (unique),
+// "blank" (all empty) or "shared" (pairs of parties carry the same string). The library identifies parties
+// by key and index only, so this must not matter. Set per case by the harness (cases run one at a time).
+var IDStyle string
+
 // MakeIDs builds sorted party ids from keys given in any order (as the README prescribes).
 func MakeIDs(prefix string, keys []*big.Int) tss.SortedPartyIDs {
 	un := make(tss.UnSortedPartyIDs, len(keys))
 	for i, k := range keys {
-		un[i] = tss.NewPartyID(fmt.Sprintf("%s%d", prefix, i), fmt.Sprintf("%s%d", prefix, i), k)
+		name := fmt.Sprintf("%s%d", prefix, i)
+		switch IDStyle {
+		case "blank":
+			name = ""
+		case "shared":
+			name = fmt.Sprintf("%s%d", prefix, i/2)
+		}
+		un[i] = tss.NewPartyID(name, name, k)
 	}
 	return tss.SortPartyIDs(un)
 }
